@@ -318,10 +318,13 @@ def reduced_by_roots(M, word, gens=None):
         v[s] = 1.0
         for t in reversed(word[:i]):
             v = gens[t] @ v
-        if np.min(v) < -0.5:
-            return False
-        if not (np.min(v) > -1e-6 and np.max(v) > 0.5):
-            raise ArithmeticError("root coordinates lost their sign pattern: %r" % (v,))
+        hi, lo = float(np.max(v)), float(np.min(v))
+        noise = 1e-7 * max(1.0, hi, -lo)
+        if hi >= 0.5 and lo > -noise:
+            continue                      # positive root
+        if lo <= -0.5 and hi < noise:
+            return False                  # negative root
+        raise ArithmeticError("root coordinates lost their sign pattern: %r" % (v,))
     return True
 
 
